@@ -79,6 +79,31 @@ Definition fit (n : N) (l : bytes) : bytes :=
 Definition pad_to (blk cur : N) : bytes :=
   zeros ((blk - cur mod blk) mod blk).
 
+(** a packed C structure as a table of fields *)
+Inductive fld := F32 (v : N) | F64 (v : N) | FB (n : N) (b : bytes).
+
+Definition enc_fld (be : bool) (f : fld) : bytes :=
+  match f with
+  | F32 v => put32 be v
+  | F64 v => put64 be v
+  | FB n b => fit n b
+  end.
+
+Definition fld_len (f : fld) : N :=
+  match f with F32 _ => 4 | F64 _ => 8 | FB n _ => n end.
+
+Definition enc_flds (be : bool) (fs : list fld) : bytes := flat_map (enc_fld be) fs.
+
+(** the field that starts exactly at offset [off] *)
+Fixpoint fld_at (fs : list fld) (off : N) : option fld :=
+  match fs with
+  | [] => None
+  | f :: t =>
+      if off =? 0 then Some f
+      else if off <? fld_len f then None
+      else fld_at t (off - fld_len f)
+  end.
+
 (** what [pread] of a file with content [f] delivers: zero-filled past EOF *)
 Definition read_of (f : bytes) (off n : N) : bytes :=
   firstn (N.to_nat n) (skipn (N.to_nat off) f ++ zeros n).
